@@ -171,7 +171,7 @@ static void cache_part(int shard, int nshards, int depth, hz::Result& r) {
   reg.zones.clear();
   reg.zones["A"] = a.bytes; reg.zones["A2"] = a.bytes; reg.zones["B"] = b.bytes;
   reg.zones["BAD"] = std::string("TZif2") + std::string(60, '\0');
-  const std::vector<std::string> alpha = {"A", "A2", "B", "X", "Fixed/UTC+01:00:00", "UTC", "BAD"};
+  const std::vector<std::string> alpha = {"A", "A2", "B", "X", "Fixed/UTC+01:00:00", "UTC", "BAD", "Fixed/UTC+25:00:00"};
   const int na = static_cast<int>(alpha.size());
   // expected panels per name, from a first load in a fresh namespace
   const long long panel_t[] = {-1900000000LL, 0, 1193533200LL, 1206838800LL, 4102444800LL};
@@ -216,7 +216,7 @@ static void cache_part(int shard, int nshards, int depth, hz::Result& r) {
           if (ok != it->second.first || tz != it->second.second) r.violation("C14:cache:reload-differs", "sequence [" + desc + "]: reloading '" + n + "' returned a different result/identity than the first load", ra);
         }
         if (!ok && tz != cctz::utc_time_zone()) r.violation("C14:cache:failure-not-utc", "sequence [" + desc + "]: failed load of '" + n + "' did not leave UTC", ra);
-        const bool no_data = (n == "UTC" || n.compare(0, 9, "Fixed/UTC") == 0);
+        const bool no_data = (n == "UTC" || n == "Fixed/UTC+01:00:00");
         const int calls = reg.calls.count(n) ? reg.calls[n] : 0;
         if (calls > (no_data ? 0 : 1)) r.violation("C14:cache:data-source-consulted-again", "sequence [" + desc + "]: data source consulted " + std::to_string(calls) + " time(s) for '" + n + "'", ra);
         loaded.insert(n);
